@@ -18,7 +18,7 @@ def specs(ctx):
     for sp in sysrun.specs_cancel(ctx, sysrun.KINDS[::2], ['future'], pts):
         s.append(sp)
         s.append(dict(sp, s3_fault=dict(idx=2, when='before')))
-    s += sysrun.specs_nonthreaded_interrupt(ctx, sysrun.KINDS[:8])
+    s += sysrun.specs_nonthreaded_interrupt(ctx, sysrun.KINDS)
     if ctx.thorough():
         # pairs of faults in the small scenarios
         for ts in sysrun.KINDS[:8]:
